@@ -78,16 +78,21 @@ type ClientConn struct {
 	LeaveBeforeResponse bool
 	StartStep           int // not dialled before this scheduler step
 
-	conn     *simnet.Conn
-	dialed   bool
-	refused  bool
-	sent     int // requests whose bytes have been queued
-	got      int // responses parsed
-	buf      []byte
-	closed   bool
-	vanished bool
-	bytesOut int // bytes queued so far
-	headLeft int // bytewise deliveries left (Frag 2)
+	conn           *simnet.Conn
+	dialed         bool
+	refused        bool
+	sent           int // requests whose bytes have been queued
+	got            int // responses parsed
+	buf            []byte
+	closed         bool
+	vanished       bool
+	bytesOut       int // bytes queued so far
+	headLeft       int // bytewise deliveries left (Frag 2)
+	scrapeNamed    int // number of named tasks when this scrape's request was fully delivered (-1: not yet)
+	scrapeProves   int
+	scrapeInFlight int
+	scrapeRunnable bool
+	scrapeBlocked  bool
 	// AfterOthers: not dialled before every other connection without this flag has settled.
 	AfterOthers bool
 	Delivered   int   // client->server bytes delivered so far
@@ -138,6 +143,9 @@ type World struct {
 		awaitFake      time.Duration
 		handlersAtStop []string
 	}
+	// TimeJumps: at these scheduler steps the fake clock jumps forward although work is in progress (a
+	// slow proof, a slow client): every timer due in between fires.
+	TimeJumps []TimeJump
 	// WaitBound: clients dial only once their address is bound (a client that waits for the
 	// service to come up); without it a dial may be refused, which the C14 oracle treats as legal.
 	WaitBound  bool
@@ -149,13 +157,21 @@ type World struct {
 	LateDialOK bool
 }
 
+type TimeJump struct {
+	Step int
+	D    time.Duration
+}
+
 type Scrape struct {
-	Cycle    int
-	Step     int
-	Totals   map[string]float64 // "method/code" -> value for endpoint_pattern="/prove"
-	InFlight float64
-	HasGauge bool
-	OK       bool
+	// BlockedBehindProof: the scrape was delivered while a proof was in flight, its handler was never
+	// runnable (blocked on a lock or without reaching any yield), and a prove request completed first.
+	BlockedBehindProof bool
+	Cycle              int
+	Step               int
+	Totals             map[string]float64 // "method/code" -> value for endpoint_pattern="/prove"
+	InFlight           float64
+	HasGauge           bool
+	OK                 bool
 	// bounds known to the simulator when the scrape response was produced
 	SentLo map[string]int
 	Begun  int
@@ -163,6 +179,7 @@ type Scrape struct {
 
 func (w *World) AddConn(c *ClientConn) *ClientConn {
 	c.ID = len(w.Conns)
+	c.scrapeNamed = -1
 	if c.CutAt == 0 && c.Vanish == 0 {
 		c.CutAt = -1
 	}
@@ -486,6 +503,11 @@ func (w *World) netActions() []Action {
 				n = 1 + w.Sim.T.Draw(pend)
 			}
 			c.Delivered += c.conn.Deliver(0, n, false)
+			if len(c.Reqs) == 1 && c.Reqs[0].Metrics && c.Delivered >= c.bytesOut && c.scrapeNamed < 0 {
+				c.scrapeNamed = w.Sim.NamedCount()
+				c.scrapeProves = w.provesAnswered()
+				c.scrapeInFlight = w.Begun(false) - w.provesAnswered()
+			}
 			if n < pend {
 				w.Sim.S.Count("fault:net/fragmented-delivery")
 			}
@@ -495,11 +517,33 @@ func (w *World) netActions() []Action {
 }
 
 // afterStep moves server->client bytes and parses complete responses.
+func (w *World) provesAnswered() int {
+	n := 0
+	for _, r := range w.reqs {
+		if !r.Metrics && r.Resp != nil && r.Cycle == w.curCycle() {
+			n++
+		}
+	}
+	return n
+}
+
 func (w *World) afterStep() {
 	w.Sim.settle()
 	for _, c := range w.Conns {
 		if c.conn == nil {
 			continue
+		}
+		// availability: an outstanding scrape whose handler has never been runnable
+		if c.scrapeNamed >= 0 && c.got == 0 && !c.closed && !c.vanished && c.scrapeInFlight > 0 && c.conn.Accepted() {
+			if n, _ := c.conn.Pending(1); n == 0 {
+				newTasks, allLockWait := w.Sim.TasksSince(c.scrapeNamed)
+				if newTasks > 0 && !allLockWait {
+					c.scrapeRunnable = true
+				}
+				if !c.scrapeRunnable && w.provesAnswered() > c.scrapeProves {
+					c.scrapeBlocked = true
+				}
+			}
 		}
 		if n, fin := c.conn.Pending(1); n > 0 || fin {
 			c.conn.Deliver(1, n, true)
@@ -590,6 +634,14 @@ func (w *World) Run(mode string) {
 	s.Providers = []func() []Action{w.netActions, w.clientActions, w.operatorActions}
 	go w.operator(mode)
 	for s.Step < s.MaxSteps {
+		for _, j := range w.TimeJumps {
+			if j.Step == s.Step && j.D > 0 {
+				s.S.Count("fault:clock/jump-while-work-in-progress")
+				s.AdvanceTime(j.D)
+				s.S.Sim(j.D.Seconds())
+				w.afterStep()
+			}
+		}
 		progressed := s.StepOnce()
 		w.afterStep()
 		if w.finished() {
@@ -698,7 +750,13 @@ func splitMetric(ln string) (map[string]string, float64) {
 }
 
 func (w *World) noteScrape(r *Request) {
-	sc := Scrape{Cycle: r.Cycle, Step: w.Sim.Step, SentLo: map[string]int{}, Begun: w.Begun(false)}
+	blocked := false
+	for _, c := range w.Conns {
+		if len(c.Reqs) == 1 && c.Reqs[0] == r {
+			blocked = c.scrapeBlocked
+		}
+	}
+	sc := Scrape{BlockedBehindProof: blocked, Cycle: r.Cycle, Step: w.Sim.Step, SentLo: map[string]int{}, Begun: w.Begun(false)}
 	for _, q := range w.reqs {
 		if !q.Metrics && q.Resp != nil && q.Cycle == r.Cycle {
 			sc.SentLo[MethodLabel(q.Method)+"/"+strconv.Itoa(q.Resp.Status)]++
